@@ -194,6 +194,23 @@ def run(ck, with_order=True):
                     good = False
         ck.require(good, rule, "frozen line = first line after the changed region of the hunk just applied (or later)",
                    "last_frozen_line is set to %s" % shown, am.where(), ok_detail=shown)
+        # R4c: ... measured on the view that matched.  The lengths come from a view of the same hunk, in the same direction, at the
+        # level the trial that produced the report was given (or the level recorded in that report), not from another view.
+        if len(ins_) == 1:
+            tried = []
+            for bb, t in am.calls():
+                if (callee_of(t).get("path") or "").endswith("try_apply_hunk") and not am.blocks[bb]["cleanup"]:
+                    tried += [view_of(x) for x in df.walk(df.operand_expr(am, t["args"][0])) if view_of(x)]
+            used = [view_of(x) for x in df.walk(df.rvalue_expr(am, ins_[0][3]["rv"])) if view_of(x)]
+            recorded = lambda x: isinstance(x, tuple) and x[0] == "field" and x[2] == "fuzz" and isinstance(x[1], tuple) and x[1][0] == "downcast" and x[1][2] == "Applied"
+            if ck.require(bool(tried) and bool(used), "C03-R4c", "views handed to the trial and measured for the frozen line",
+                          "%d views tried, %d views measured" % (len(tried), len(used)), am.where()):
+                bad = [u for u in used if not any(u[0] == t_[0] and u[1] == t_[1] and (u[2] == t_[2] or recorded(u[2])) for t_ in tried)]
+                ck.require(not bad, "C03-R4c", "the frozen line is measured on the view that matched",
+                           "last_frozen_line is computed from view(.., %s) while the trial was given view(.., %s): with another level the trimmed "
+                           "lengths differ, the frozen line ends up too low and a later hunk may overlap what this one changed" %
+                           (df.show(bad[0][2], 60) if bad else "", df.show(tried[0][2], 60)), am.where(ins_[0][3]) if hasattr(am, "where") else None,
+                           ok_detail="level %s" % df.show(used[0][2], 80))
     # engine D, restricted to normal mode: where a hunk is reported Applied its position is at or after the frozen line
     from .c04 import rollback_regions
     region, normal, sws = rollback_regions(tah)
